@@ -635,7 +635,8 @@ static void mi_arenas_try_purge( bool force, bool visit_all )
   mi_atomic_guard(&purge_guard)
   {
     // increase global expire: at most one purge per delay cycle
-    mi_atomic_storei64_release(&mi_arenas_purge_expire, now + mi_arena_purge_delay());  
+    const mi_msecs_t next_expire = now + mi_arena_purge_delay();
+    mi_atomic_storei64_release(&mi_arenas_purge_expire, next_expire);
     size_t max_purge_count = (visit_all ? max_arena : 2);
     bool all_visited = true;
     bool any_pending = false;
@@ -659,7 +660,21 @@ static void mi_arenas_try_purge( bool force, bool visit_all )
     }
     if (all_visited && !any_pending) {
       // all arena's were visited and purged: reset global expire
-      mi_atomic_storei64_release(&mi_arenas_purge_expire, 0);
+      mi_msecs_t expected = next_expire;  // (other threads only change it from 0)
+      mi_atomic_casi64_strong_acq_rel(&mi_arenas_purge_expire, &expected, (mi_msecs_t)0);
+      // a purge that was scheduled concurrently for an arena that we had already visited, found the global
+      // expire still set and did not update it: look again so that purge is not forgotten.
+      for (size_t i = 0; i < max_arena; i++) {
+        mi_arena_t* arena = mi_atomic_load_ptr_acquire(mi_arena_t, &mi_arenas[i]);
+        if (arena != NULL) {
+          const mi_msecs_t expire = mi_atomic_loadi64_acquire(&arena->purge_expire);
+          if (expire != 0) {
+            mi_msecs_t expire0 = 0;
+            mi_atomic_casi64_strong_acq_rel(&mi_arenas_purge_expire, &expire0, expire);
+            break;
+          }
+        }
+      }
     }
   }
 }
